@@ -352,6 +352,8 @@ theorem decodeTxFull_spec {b : Bytes} {d : Decoded} (h : decodeTxFull b = some d
   split at h; · simp at h
   rename_i nout b5 e5
   split at h; · simp at h
+  rename_i hzin
+  split at h; · simp at h
   rename_i outs b6 e6
   have ⟨a1, l1⟩ := readN_spec e1
   have ⟨a3, _, _⟩ := vlenWire_spec e3
@@ -436,6 +438,9 @@ def witCanonical : Bytes := [1,0,0,0] ++ [1] ++ cIn ++ [1] ++ cOut ++ [0,0,0,0]
 def witSuperfluous : Bytes := [1,0,0,0] ++ [0,1] ++ [1] ++ cIn ++ [1] ++ cOut ++ [0] ++ [0,0,0,0]
 /-- `01000000 feffffff0f …`: input count 0x0fffffff in a 64-byte string -/
 def witHugeCount : Bytes := [1,0,0,0] ++ [0xfe,0xff,0xff,0xff,0x0f] ++ cIn ++ [1] ++ cOut ++ [0,0,0,0]
+
+/-- `01000000 00 02 <out> <out> 00000000`: no inputs, then a byte that is neither 00 nor the witness flag 01 -/
+def witZeroInputs : Bytes := [1,0,0,0] ++ [0] ++ [2] ++ cOut ++ cOut ++ [0,0,0,0]
 
 theorem lax_nonminimal_eval :
     (decodeTxLax witNonMinimal).map (fun p => (decide (encodeTx p.1 = witNonMinimal.take p.2), p.2)) = some (false, 62) := by
@@ -542,11 +547,46 @@ theorem decodeTxFull_encode (t : Tx) (hw : t.WF) (rest : Bytes) :
     intro r
     have := encodeList_length_ge encodeTxOut encodeTxOut_pos t.outs
     simp only [List.length_append]; omega
-  have hne : t.ins.length ≠ 0 := by
-    intro h; exact hw.ins_ne (List.length_eq_zero_iff.mp h)
-  obtain ⟨x, tl, hput, hx0⟩ := putULe_head_ne_zero t.ins.length hne hw.nins
   cases hwit : t.witness with
   | none =>
+    by_cases hin : t.ins = []
+    · -- no inputs, hence no outputs: `ver 00 00 locktime`
+      have hout := hw.ins_ne hin
+      have hv : leVal (leBytes 4 t.version) = t.version := leVal_leBytes_of_lt 4 _ (by simpa using hw.version)
+      have hl : leVal (leBytes 4 t.lockTime) = t.lockTime := leVal_leBytes_of_lt 4 _ (by simpa using hw.lockTime)
+      have hp0 : putULe 0 = [0] := by decide
+      have e : encodeTx t ++ rest = leBytes 4 t.version ++ (0 :: 0 :: (leBytes 4 t.lockTime ++ rest)) := by
+        simp [encodeTx, hwit, encodeTxNoWit, encodeBody, hin, hout, encodeList, hp0]
+      have elen : (encodeTx t).length = 10 := by
+        simp [encodeTx, hwit, encodeTxNoWit, encodeBody, hin, hout, encodeList, hp0]
+      have enw : encodeTxNoWit t = encodeTx t := by simp [encodeTx, hwit]
+      have hv0 : ∀ r : Bytes, vlenWire (0 :: r) = some (0, r) := by
+        intro r
+        have := vlenWire_putULe 0 r (by decide) (by omega)
+        rwa [hp0] at this
+      have hm : ∀ r : Bytes, readMarker (0 :: 0 :: r) = some (false, 0 :: 0 :: r) := by intro r; simp [readMarker]
+      rw [enw, elen, e]
+      unfold decodeTxFull decodeTxWith
+      rw [readN_append' _ _ (leBytes_length 4 _)]
+      simp only
+      rw [hm]
+      simp only
+      rw [hv0]
+      simp only [decodeN]
+      rw [hv0]
+      simp only [decodeN, bne_self_eq_false, Bool.and_false, Bool.false_eq_true, ↓reduceIte]
+      rw [readN_append' _ _ (leBytes_length 4 _)]
+      simp only [Option.some.injEq]
+      rw [hv, hl]
+      have ht : ({ version := t.version, ins := [], outs := [], witness := none, lockTime := t.lockTime } : Tx) = t := by
+        cases t; simp_all
+      rw [ht]
+      congr 1
+      · simp only [List.length_append, List.length_cons, leBytes_length]; omega
+      · simp only [List.length_append, List.length_cons, leBytes_length]; congr 1; omega
+    have hne : t.ins.length ≠ 0 := by
+      intro h; exact hin (List.length_eq_zero_iff.mp h)
+    obtain ⟨x, tl, hput, hx0⟩ := putULe_head_ne_zero t.ins.length hne hw.nins
     have e : encodeTx t ++ rest = leBytes 4 t.version ++ (putULe t.ins.length ++ (encodeList encodeTxIn t.ins ++
         (putULe t.outs.length ++ (encodeList encodeTxOut t.outs ++ (leBytes 4 t.lockTime ++ rest))))) := by
       simp [encodeTx, hwit, encodeTxNoWit, encodeBody, List.append_assoc]
@@ -565,9 +605,10 @@ theorem decodeTxFull_encode (t : Tx) (hw : t.WF) (rest : Bytes) :
     rw [hins]
     simp only
     rw [vlenWire_putULe _ _ hw.nouts (hbo _)]
-    simp only
+    have hz : (t.ins.length == 0) = false := by simpa using hne
+    simp only [hz, Bool.and_false, Bool.false_and, Bool.false_eq_true, ↓reduceIte]
     rw [houts]
-    simp only [Bool.false_eq_true, ↓reduceIte]
+    simp only
     rw [readN_append' _ _ (leBytes_length 4 _)]
     simp only [Option.some.injEq]
     have hv : leVal (leBytes 4 t.version) = t.version := leVal_leBytes_of_lt 4 _ (by simpa using hw.version)
@@ -606,9 +647,9 @@ theorem decodeTxFull_encode (t : Tx) (hw : t.WF) (rest : Bytes) :
     rw [hins]
     simp only
     rw [vlenWire_putULe _ _ hw.nouts (hbo _)]
-    simp only
+    simp only [Bool.not_true, Bool.false_and, Bool.and_false, Bool.false_eq_true, ↓reduceIte]
     rw [houts]
-    simp only [↓reduceIte]
+    simp only
     rw [hwd]
     simp only [hnw, Bool.and_false, Bool.false_eq_true, ↓reduceIte]
     rw [readN_append' _ _ (leBytes_length 4 _)]
